@@ -11,10 +11,11 @@ from harness.common import SEC, T0, Y2000, Y2050, Y2100, World, mem_places, plac
 MS = 1000
 
 
-def _params(S, T_us, ts_us=None):
+def _params(S, T_us, ts_us=None, ttl_us=None):
     import repid.data._parameters as P
     return P.Parameters(delay=P.DelayProperties(next_execution_time=S.datetime_us(T_us)),
-                        timestamp=S.datetime_us(ts_us if ts_us is not None else T0))
+                        timestamp=S.datetime_us(ts_us if ts_us is not None else T0),
+                        ttl=S.timedelta_us(ttl_us) if ttl_us is not None else None)
 
 
 # ----------------------------------------------------------------------------------------
@@ -101,12 +102,14 @@ def h05_redis(S, via="enqueue"):
     out = {}
     S.tag("via", via)
     twin = via == "enqueue" and S.flag("two_messages_due_at_the_same_instant")
+    # the message may carry a time-to-live that runs out before it is due: it is still only visible through the delayed category
+    ttl = S.int("ttl_us", SEC, 10 * 366 * 86400 * SEC) if (via == "enqueue" and not twin and S.flag("has_ttl")) else None
 
     async def main(loop):
         srv = fr.FakeServer(clock=lambda: clock.time())
         br = fr.mk_broker(srv)
         key = RoutingKey(topic="job", queue="default", id_="d1")
-        params = _params(S, T, ts_us=enq)
+        params = _params(S, T, ts_us=enq, ttl_us=ttl)
         if via == "enqueue":
             await br.enqueue(key, "p", params)
             if twin:
@@ -146,6 +149,10 @@ def h05_redis(S, via="enqueue"):
         run_async(main, clock=clock)
     S.check("stored-in-delayed-category", place_names(out["places_before"], "d1") == ["delayed"],
             info=str(place_names(out["places_before"], "d1")))
+    if ttl is not None and now > enq + ttl and now >= T:
+        # due and expired at once: the normal consumer dead-letters it (C12's business); nothing to say here
+        S.cover("due-and-expired")
+        return
     if out["got"] is not None:
         S.cover("delivered")
         S.check("never-delivered-before-due", now >= T - MS, info="delivered to a normal consumer before its due time")
